@@ -548,7 +548,7 @@ def raw_input_validated_first(ctx, rule='C08-R4'):
 
 # ------------------------------------------------------------------ C08-R6 / C20-R7: definite assignment
 def locals_bound_before_use(ctx, rule='C08-R6', scope='processing'):
-    """Every read of a local name is reached with the name bound (E9).  A read that is not raises
+    """Every read of a local name is reached with the name bound (E10).  A read that is not raises
     UnboundLocalError, which is neither a result nor an AmpycloudError.  Only reads left unbound on a path that
     needs no loop to run zero times and no handler to be entered are violations; the others are information."""
     from sa.definite import analyse
